@@ -176,6 +176,7 @@ def fold_sum(I, xs: SList, start):
         res = Expl("eq", Qty(fq.at(n), unit), Label(False), left=Opaque("partial sum"), right=xs.elem(n - 1), operator="+",
                    anc=frozenset([(xs.name, "*")]))
         if isinstance(probe, ExplU):
+            induct(I, f"sum of all-Empty elements is zero [{fq.name}]", lambda k: z3.Implies(fe.at(k), fq.at(k) == 0), n)
             return ExplU(fe.at(n), res)
         return res
     if pk == "ehq":
@@ -189,6 +190,21 @@ def fold_sum(I, xs: SList, start):
         u.nonempty.label = Label(False)
         return u
     raise Unsupported(f"sum over list of {type(probe).__name__}")
+
+
+def induct(I, name, P, at):
+    """prove  forall k >= 0. P(k)  by induction (two obligations: base, step) and use it at `at`"""
+    eng = I.eng
+    key = ("induct", name)
+    if key not in eng.run.cache:
+        eng.run.cache[key] = True
+        eng.oblige(f"lemma/{name}/base", P(z3.IntVal(0)), kind="lemma")
+        k = eng.fresh("k_ind", I_)
+        saved = list(eng.run.pc)
+        eng.assume(k >= 0); eng.assume(P(k))
+        eng.oblige(f"lemma/{name}/step", P(k + 1), kind="lemma")
+        eng.run.pc[:] = saved
+    eng.assume(z3.Implies(at >= 0, P(at)))
 
 
 class FoldB:
